@@ -33,6 +33,12 @@ type c04Case struct {
 	// escapes (first | last | all | upper); the name denotes the same key
 	EscapeKey  string `json:"escape_key,omitempty"`
 	EscapeMode string `json:"escape_mode,omitempty"`
+	// DupKey: the wire text repeats this top-level member (name spelled as DupMode says, value null or
+	// another value) after the original one. Two members with one name have no defined meaning: the
+	// decoders in use pick different ones, so such an event must be refused.
+	DupKey  string `json:"dup_key,omitempty"`
+	DupMode string `json:"dup_mode,omitempty"` // "" | first | last | all | upper
+	DupNull bool   `json:"dup_null,omitempty"`
 }
 
 func c04EscapeName(name, mode string) string {
@@ -114,6 +120,33 @@ func c04Check(ctx *vfCtx, c c04Case) {
 	if c.Respell != 0 {
 		wire = []byte(jspellSeed(c.Respell, sent))
 		ctx.Class("wire/respelt")
+	}
+	if _, present := sent.get(c.DupKey); c.DupKey != "" && !present {
+		ctx.Unjudged("generator: the member to repeat is not in the event")
+		return
+	}
+	if c.DupKey != "" && len(wire) > 2 {
+		val := `"@evil:evil.example"`
+		switch {
+		case c.DupNull:
+			val = "null"
+		case c.DupKey == "depth" || c.DupKey == "origin_server_ts":
+			val = "7"
+		case c.DupKey == "content" || c.DupKey == "hashes" || c.DupKey == "signatures":
+			val = "{}"
+		}
+		wire = []byte(string(wire[:len(wire)-1]) + `,"` + c04EscapeName(c.DupKey, c.DupMode) + `":` + val + `}`)
+		ctx.Class("wire/duplicate-key/" + c.DupMode)
+		ctx.NonTrivial()
+		var dev PDU
+		var derr error
+		if vfCatch(ctx, "C04/duplicate-key", func() { dev, derr = impl.NewEventFromUntrustedJSON(append([]byte(nil), wire...)) }) {
+			return
+		}
+		if derr == nil && dev != nil {
+			ctx.Fail("C04/duplicate-top-level-key-accepted", "an event that repeats the top-level member %q (second spelling %q) was accepted: %q", c.DupKey, c04EscapeName(c.DupKey, c.DupMode), wire)
+		}
+		return
 	}
 	if c.EscapeKey != "" {
 		wire = []byte(strings.ReplaceAll(string(wire), `"`+c.EscapeKey+`":`, `"`+c04EscapeName(c.EscapeKey, c.EscapeMode)+`":`))
@@ -354,6 +387,19 @@ func c04EnumEscapedKeys(size, shard, nshards int, emit func(c04Case)) {
 					val = vfBytes(`"$evil:evil.example"`)
 				case "origin":
 					val = vfBytes(`"evil.example"`)
+				}
+				if key == "unsigned" {
+					// duplicates of the envelope fields, in every spelling, with a null or another value
+					for _, dk := range []string{"sender", "type", "room_id", "state_key", "content", "depth", "origin_server_ts", "hashes", "signatures", "redacts"} {
+						for _, mode := range []string{"", "first", "last", "all", "upper"} {
+							for _, isNull := range []bool{true, false} {
+								if idx%nshards == shard {
+									emit(c04Case{Version: v, Event: ev, Origin: p.Origin, DupKey: dk, DupMode: mode, DupNull: isNull})
+								}
+								idx++
+							}
+						}
+					}
 				}
 				for _, mode := range []string{"", "first", "last", "all", "upper"} {
 					for _, gf := range []bool{false, true} {
